@@ -1220,6 +1220,11 @@ func (ndb *nodeDB) traverseOrphansWithRootkeyCache(cache *rootkeyCache, prevVers
 				curIter.Next(false)
 			}
 		}
+		// a node of the current version that cannot be read must not turn the rest of the
+		// previous version into orphans
+		if err := curIter.Error(); err != nil {
+			return err
+		}
 		pNode := prevIter.GetNode()
 
 		if orgNode != nil && bytes.Equal(pNode.hash, orgNode.hash) {
@@ -1232,6 +1237,9 @@ func (ndb *nodeDB) traverseOrphansWithRootkeyCache(cache *rootkeyCache, prevVers
 			}
 			prevIter.Next(false)
 		}
+	}
+	if err := prevIter.Error(); err != nil {
+		return err
 	}
 
 	return nil
